@@ -83,11 +83,15 @@ Definition cfg_reent (cfg : list (bool * tmo)) (o : oid) : bool := fst (nth o cf
 Definition cfg_dflt (cfg : list (bool * tmo)) (o : oid) : tmo := snd (nth o cfg (false, TNeg)).
 
 (* elapsed-time clause: non-blocking returns at once; a timed acquire stays within its
-   timeout for each of the two waiting stages plus one poll interval *)
+   timeout plus one poll interval.  (In general each of the two waiting stages — thread lock,
+   then OS lock — may take up to the timeout: props/C12.v timed_bound says T + T + poll.  The
+   cases here issue one call at a time, so at most ONE stage waits: a thread lock that is
+   available is taken at once, one that is not stays unavailable until the timeout.  Proved
+   for the model: FLockAcq.time_fin, last clause.) *)
 Definition time_ok (dflt : tmo) (blk : bool) (tm : tmo) (poll el : N) : bool :=
   let '(b', tm') := normalise (obj0 0 false dflt) blk tm in
   if negb b' then N.eqb el 0
-  else match tm' with TVal T => (el <=? T + T + poll)%N | _ => true end.
+  else match tm' with TVal T => (el <=? T + poll)%N | _ => true end.
 
 Definition implb_list (obs expd : list bool) : bool :=
   Nat.eqb (length obs) (length expd) &&
